@@ -233,9 +233,10 @@ def spellings(toks: list[Tok], tier: str) -> list[tuple]:
     t = len(idx)
     cand = [("all:l", {})]
     cand += [(f"all:{f}", {i: f for i in idx}) for f in ("u", "c", "a")]
-    for f in ("u", "c", "a"):
-        cand += [(f"one:{f}:{k}", {i: f}) for k, i in enumerate(idx)]
+    cand += [(f"one:u:{k}", {i: "u"}) for k, i in enumerate(idx)]
     if tier != "quick":
+        for f in ("c", "a"):
+            cand += [(f"one:{f}:{k}", {i: f}) for k, i in enumerate(idx)]
         if t <= FULL_LIMIT:
             for bits in itertools.product("lu", repeat=t):
                 cand.append(("mask:" + "".join(bits), {i: b for i, b in zip(idx, bits) if b != "l"}))
